@@ -180,6 +180,8 @@ type File struct {
 	// Via names an umbrella file (one that publicly imports the sebuf annotation files): when set, this
 	// file imports the umbrella instead of sebuf/http/annotations.proto and headers.proto themselves.
 	Via       string
+	// ViaAll: the umbrella also re-exports buf/validate/validate.proto, and this file imports only the umbrella.
+	ViaAll bool
 	Messages  []*Message
 	Enums     []*EnumDef
 	Services  []*Service
@@ -252,6 +254,7 @@ func (f *File) Clone() *File {
 	c := *f
 	c.Imports = append([]string(nil), f.Imports...)
 	c.Public = append([]string(nil), f.Public...)
+	c.ViaAll = f.ViaAll
 	c.Messages = cloneMsgs(f.Messages)
 	c.Enums = cloneEnums(f.Enums)
 	c.Services = nil
